@@ -211,7 +211,12 @@ func runClient(stream []byte, sched []int, final error, ewd bool, wplan []bool, 
 			}
 		case "rawmsg":
 			var b []byte
-			if p, _ := protect(func() { b = append([]byte(nil), c.RawMessage()...); if c.RawMessage() == nil { b = nil } }); p {
+			if p, _ := protect(func() {
+				b = append([]byte(nil), c.RawMessage()...)
+				if c.RawMessage() == nil {
+					b = nil
+				}
+			}); p {
 				ob = "BPanic"
 			} else {
 				ob = optBytes(b)
@@ -232,7 +237,12 @@ func runClient(stream []byte, sched []int, final error, ewd bool, wplan []bool, 
 			}
 		case "rawpkt":
 			var b []byte
-			if p, _ := protect(func() { r := c.RawPacket(); if r != nil { b = append([]byte{}, r...) } }); p {
+			if p, _ := protect(func() {
+				r := c.RawPacket()
+				if r != nil {
+					b = append([]byte{}, r...)
+				}
+			}); p {
 				ob = "BPanic"
 			} else {
 				ob = optBytes(b)
